@@ -30,6 +30,9 @@
 //	  213 q inUse raw waiters held   end of case; q = 1 when every script finished and nothing is held
 //	  214 tid 0     recovered panic of the real code
 //	  215 n 0       the case did not finish within its deadline (n goroutines still running)
+//	  216 tid ms    LATE WAKE-UP (only for intervalMs >= 200, i.e. the directed "prompt-wakeup" cases): get()
+//	                returned more than half a heartbeat period after capacity became free, i.e. the
+//	                goroutine was woken by the heartbeat and not by back()'s Broadcast
 package pooldrv
 
 import (
@@ -52,6 +55,7 @@ const (
 	LFinal    = 213
 	LPanic    = 214
 	LTimeout  = 215
+	LLateWake = 216
 
 	// StuckPeriods: a getter blocked for more than this many heartbeat periods with free capacity is stuck.
 	StuckPeriods = 20
@@ -244,6 +248,15 @@ func RunCase(cs hx.Sx) hx.Sx {
 					}
 					hm.Lock()
 					t.inGet = false
+					if interval >= 200*time.Millisecond && !t.reported {
+						from := t.since
+						if freeSince.After(from) {
+							from = freeSince
+						}
+						if d := time.Since(from); held < capacity && d > interval/2 {
+							log.add(LLateWake, tid, d.Milliseconds())
+						}
+					}
 					held++
 					_, dup := heldSet[e]
 					heldSet[e] = tid
